@@ -94,7 +94,7 @@ theorem genParser_conflictStates {syn : List SProd} {ids : List String} {r : LRR
       exact ⟨rows, hrows, rfl⟩
 
 /-- C04, generator level: the announced number is the number of states in which some terminal
-    admits two different actions -/
+    is proposed two different actions -/
 theorem C04_genParser_conflict_count {syn : List SProd} {ids : List String} {r : LRResult}
     (h : genParser syn ids = .ok r) :
     r.tables.conflictStates = (r.states.toList.filter (stateConflicts r.ctx)).length := by
